@@ -30,6 +30,12 @@ class Infra(Exception):
     pass
 
 
+class ImplAbort(Exception):
+    """the harness process, which runs the real code in-process, was killed by SIGABRT / SIGSEGV /
+    SIGILL / SIGFPE: the implementation aborted (e.g. allocation failure) on a generated input"""
+    pass
+
+
 def run(cmd, cwd=None, timeout=None, stdin=None, stdout=None, env=None):
     return subprocess.run(cmd, cwd=cwd, timeout=timeout, stdin=stdin, stdout=stdout or subprocess.PIPE,
                           stderr=subprocess.STDOUT if stdout is None else subprocess.PIPE, text=stdout is None,
@@ -167,6 +173,8 @@ def run_stream(spec, tier_cfg, seed, outdir, replay=None, timeout=None):
         r = run(cmd, timeout=timeout or tier_cfg.get("timeout", 3000))
     except subprocess.TimeoutExpired:
         raise Infra(f"harness timed out: {' '.join(cmd)}")
+    if r.returncode in (-6, -11, -4, -8):
+        raise ImplAbort(f"signal {-r.returncode}: {' '.join(cmd)}\n{r.stdout[-1500:]}")
     if r.returncode != 0:
         raise Infra(f"harness failed rc={r.returncode}: {' '.join(cmd)}\n{r.stdout[-2000:]}")
     ops = os.path.join(outdir, "ops.txt")
@@ -336,9 +344,19 @@ def main():
                     # exhaustive sweeps are done once, by shard 0
                     c["extra"] = {a: b for a, b in c["extra"].items() if a not in s.get("shard0_only", [])}
                 jobs.append((s, c, seed * 1000003 + k, os.path.join(scratch, f"s{si}-{k}"), None))
+        aborted = []
         with cf.ThreadPoolExecutor(max_workers=int(os.environ.get("VERIF_JOBS", "16"))) as ex:
             futs = [ex.submit(run_stream, *j) for j in jobs]
-            results = [f.result() for f in futs]
+            results = []
+            for f in futs:
+                try:
+                    results.append(f.result())
+                except ImplAbort as e:
+                    aborted.append(str(e))
+        if aborted:
+            # the implementation died on some generated input of that shard; the shard's command
+            # line (seed) reproduces it; the input itself was never written out
+            obligations_broken.append("implementation aborted the harness process: " + aborted[0][:600])
         for r in results:
             c = compare(r["dir"])
             totals["lines"] += c["lines"]; totals["oracle_evals"] += c["oracle_evals"]; totals["bad_op"] += c["bad_op"]
